@@ -7,7 +7,7 @@ if [ -n "${VP_RUN_REPO:-}" ] && [ "$(pwd)" != "/verif" ]; then
   sed -i "s#\"/repo#\"$VP_RUN_REPO#g" engine/harness/Cargo.toml engine/b3shim/Cargo.toml engine/b3shim/src/lib.rs
   export VERIF_REPO=$VP_RUN_REPO
 fi
-for p in C01 C02 C03 C04 C05 C06 C07 C08 C09 C10 C11 C12 C13 C14 C15 C16 C17 C18; do
+for p in ${PROPS:-C01 C02 C03 C04 C05 C06 C07 C08 C09 C10 C11 C12 C13 C14 C15 C16 C17 C18}; do
   s=$(date +%s)
   VERIF_SEED=${VERIF_SEED:-0} python3 verif.py check $p --tier thorough > work_thorough_$p.log 2>&1
   rc=$?
